@@ -5,7 +5,9 @@
            ([pivot_nonzero_if_any]).
    Part 2: with the reciprocal row scale (scale_of_max := invM) the pivot sequence is invariant
            under scaling the rows of the input by nonzero factors ([pivot_scale_invariant]).
-   Part 3: the order/magnitude hypotheses hold for Qc / Gaussian rationals; examples. *)
+   Part 3: the order/magnitude hypotheses hold for Qc / Gaussian rationals; examples.
+   Hypotheses on M are section hypotheses; after the sections close every theorem is generalised
+   over exactly those it uses (noted above each theorem; see also the Check output). *)
 Require Import List Arith Lia Bool Permutation.
 Import ListNotations.
 Require Import LV.Base.CField LV.Lin.MatL LV.Lin.LuModel.
@@ -240,10 +242,50 @@ Proof.
   - destruct Hw2 as [Hl2 _]. rewrite mget_swap_rows by lia. rewrite tr_l. reflexivity.
 Qed.
 
+Lemma lu_column_spec_ex n st j : wf n n (lu_a st) -> length (lu_ri st) = n -> j < n ->
+  exists (u s : nat -> K), s = cand_s n st j /\
+   let bi := col_bi n st j in
+   let W := lu_a st in let st' := lu_column n st j in let W' := lu_a st' in
+   let sg := tr j bi in
+   j <= bi < n /\
+   wf n n W' /\
+   length (lu_ri st') = n /\
+   (forall i, nth i (lu_ri st') O = nth (sg i) (lu_ri st) O) /\
+   (forall i c, c <> j -> mg W' i c = mg W (sg i) c) /\
+   (forall i, i < j -> u i = mg W i j - sumf i (fun k => mg W i k * u k)) /\
+   (forall i, j <= i < n -> s i = mg W i j - sumf j (fun k => mg W i k * u k)) /\
+   (forall i, i < j -> mg W' i j = u i) /\
+   mg W' j j = s bi /\
+   (forall i, j < i < n -> mg W' i j = s (sg i) * (1 / s bi)) /\
+   lu_d st' = lu_d st * (if bi =? j then 1 else copp 1) * mg W' j j /\
+   lu_pivots st' = lu_pivots st ++ [nth j (lu_ri st') O] /\
+   lu_ri st' = (if negb (bi =? j) then swap_rows O (lu_ri st) bi j else lu_ri st).
+Proof.
+  intros Hw Hl Hj.
+  exists (fun i => mg (phase1 j (lu_a st)) i j), (cand_s n st j). split; [reflexivity|].
+  exact (lu_column_spec_bi n st j Hw Hl Hj).
+Qed.
+
+Lemma Sinv_step n st j : Sinv n st -> j < n -> Sinv n (lu_column n st j).
+Proof.
+  intros (Hwa & Hl & Hrange & Hinj) Hj.
+  destruct (lu_column_spec K M nrm2 mulM ltM zeroM n st j Hwa Hl Hj)
+    as (bi & u & s & Hbi & Hw' & Hl' & Hri & _).
+  split; [exact Hw'|]. split; [exact Hl'|]. split.
+  - intros i Hi. rewrite Hri. apply Hrange. apply tr_lt; lia.
+  - intros i i' Hi Hi'. rewrite !Hri. intros E. apply Hinj in E; try (apply tr_lt; lia).
+    eapply tr_inj; eauto.
+Qed.
+
+Definition scale_rows (d : nat -> K) (a : mat) (n : nat) : mat :=
+  mbuild K n n (fun i c => d i * mg a i c).
+
 (* ================= order hypotheses: the selection is a maximum ================= *)
 Section Order.
 Hypothesis ltM_irrefl : forall x, ltM x x = false.
 Hypothesis ltM_trans : forall x y z, ltM x y = true -> ltM y z = true -> ltM x z = true.
+(* zeroM_min is listed for completeness only: no lemma below uses it (and it is false for
+   M := Qc, where only the values that occur are non-negative) *)
 Hypothesis zeroM_min : forall x, ltM x zeroM = false.
 Hypothesis mulM_pos : forall x y, ltM zeroM x = true -> ltM zeroM y = true ->
   ltM zeroM (mulM x y) = true.
@@ -325,7 +367,386 @@ Proof.
   exists i. split; auto. unfold cand_metric. apply mulM_pos; auto.
 Qed.
 
-(*SCALE*)
+
+(* ================= Part 2: reciprocal row scale, invariance under row scaling ============ *)
+Section Scale.
+Variable oneM : M.
+Variable invM : M -> M.
+Hypothesis mulM_comm : forall x y, mulM x y = mulM y x.
+Hypothesis mulM_assoc : forall x y z, mulM x (mulM y z) = mulM (mulM x y) z.
+Hypothesis mulM_one_l : forall x, mulM oneM x = x.
+Hypothesis invM_l : forall x, ltM zeroM x = true -> mulM (invM x) x = oneM.
+Hypothesis invM_mul : forall x y, invM (mulM x y) = mulM (invM x) (invM y).
+Hypothesis ltM_mul_pos : forall d x y, ltM zeroM d = true ->
+  ltM (mulM d x) (mulM d y) = ltM x y.
+Hypothesis nrm2_mul : forall x y : K, nrm2 (x * y) = mulM (nrm2 x) (nrm2 y).
+
+Notation lu_init := (lu_init K M nrm2 ltM zeroM invM).
+Notation lu := (lu K M nrm2 mulM ltM zeroM invM).
+Notation lu_upto := (lu_upto K M nrm2 mulM ltM zeroM invM).
+Notation row_max := (row_max K M nrm2 ltM zeroM).
+
+(* (2a) uses nrm2_pos, nrm2_mul, ltM_mul_pos, mulM_zero_r *)
+Lemma row_max_scale_gen d a n i l : (forall c, In c l -> c < n) -> i < n -> d i <> 0 ->
+  forall mx,
+  fold_left (fun mx j => let t := nrm2 (mg (scale_rows d a n) i j) in if ltM mx t then t else mx)
+            l (mulM (nrm2 (d i)) mx) =
+  mulM (nrm2 (d i))
+    (fold_left (fun mx j => let t := nrm2 (mg a i j) in if ltM mx t then t else mx) l mx).
+Proof.
+  intros Hl Hi Hdi. induction l as [|c l IH]; intros mx; [reflexivity|].
+  cbn [fold_left]. cbv zeta.
+  assert (E : nrm2 (mg (scale_rows d a n) i c) = mulM (nrm2 (d i)) (nrm2 (mg a i c))).
+  { unfold scale_rows. rewrite mget_mbuild by (auto; apply Hl; left; auto). apply nrm2_mul. }
+  rewrite E. rewrite ltM_mul_pos by (apply nrm2_pos; auto).
+  destruct (ltM mx (nrm2 (mg a i c))); apply IH; intros; apply Hl; right; auto.
+Qed.
+
+Lemma row_max_scale d a n i : i < n -> d i <> 0 ->
+  row_max (scale_rows d a n) n i = mulM (nrm2 (d i)) (row_max a n i).
+Proof.
+  intros Hi Hdi. unfold LuModel.row_max.
+  rewrite <- (row_max_scale_gen d a n i (seq 0 n)); auto.
+  - rewrite mulM_zero_r. reflexivity.
+  - intros c Hc. apply in_seq in Hc. lia.
+Qed.
+
+(* (2b) uses mulM_comm, mulM_assoc, mulM_one_l, invM_l (and invM_mul for the second form) *)
+Lemma metric_scale' dd r ns : ltM zeroM dd = true ->
+  mulM (mulM (invM dd) r) (mulM dd ns) = mulM r ns.
+Proof.
+  intros Hd. rewrite (mulM_comm (invM dd) r). rewrite <- mulM_assoc.
+  rewrite (mulM_assoc (invM dd) dd ns). rewrite invM_l by auto. rewrite mulM_one_l. reflexivity.
+Qed.
+
+Lemma metric_scale dd rm ns : ltM zeroM dd = true ->
+  mulM (invM (mulM dd rm)) (mulM dd ns) = mulM (invM rm) ns.
+Proof. intros Hd. rewrite invM_mul. apply metric_scale'; auto. Qed.
+
+Section Run.
+Variable d : nat -> K.
+Variable n : nat.
+Hypothesis Hd : forall i, i < n -> d i <> 0.
+
+(* st: state of the run on A;  st': state of the run on diag(d) A, same column *)
+Definition ScaleRel (j : nat) (st st' : lu_state) : Prop :=
+  lu_ri st' = lu_ri st /\ lu_pivots st' = lu_pivots st /\ Sinv n st /\ Sinv n st' /\
+  length (lu_rs st) = n /\ length (lu_rs st') = n /\
+  let dp := fun i => d (nth i (lu_ri st) O) in
+  let W := mg (lu_a st) in let W' := mg (lu_a st') in
+  (forall i c, i < n -> j <= c < n -> W' i c = dp i * W i c) /\
+  (forall i c, i < n -> c < j -> i <= c -> W' i c = dp i * W i c) /\
+  (forall i c, i < n -> c < j -> c < i -> W' i c = dp i / dp c * W i c) /\
+  (forall i, j <= i < n ->
+     nth i (lu_rs st') zeroM = mulM (invM (nrm2 (dp i))) (nth i (lu_rs st) zeroM)).
+
+(* (2c) uses nrm2_pos, nrm2_mul, mulM_comm, mulM_assoc, mulM_one_l, invM_l *)
+Theorem pivot_scale_invariant_step j st st' : ScaleRel j st st' -> j < n ->
+  mg (lu_a (lu_column n st j)) j j <> 0 ->
+  col_bi n st' j = col_bi n st j /\ ScaleRel (S j) (lu_column n st j) (lu_column n st' j).
+Proof.
+  intros (Eri & Epv & HS & HS' & Hlr & Hlr' & HA & HB & HC & HD) Hj Hnz.
+  cbv zeta in HA, HB, HC, HD.
+  pose proof HS as (Hw & Hl & Hrange & Hinj). pose proof HS' as (Hw' & Hl' & _).
+  destruct (lu_column_spec_ex n st j Hw Hl Hj)
+    as (u & s & Es & Hbi & Hw1 & Hl1 & Hri1 & Hc1 & Hu & Hs & Hu1 & Hjj1 & Hlow1 & _ & Hp1 & Eri1).
+  destruct (lu_column_spec_ex n st' j Hw' Hl' Hj)
+    as (u' & s' & Es' & Hbi' & Hw1' & Hl1' & Hri1' & Hc1' & Hu' & Hs' & Hu1' & Hjj1' & Hlow1'
+        & _ & Hp1' & Eri1').
+  set (dp := fun i => d (nth i (lu_ri st) O)) in *.
+  assert (Hdp : forall i, i < n -> dp i <> 0) by (intros i Hi; apply Hd, Hrange; auto).
+  assert (Hu_sc : forall m i, i < m -> i < j -> u' i = dp i * u i).
+  { induction m; intros i Him Hij; [lia|].
+    rewrite (Hu' i Hij), (Hu i Hij). rewrite HA by lia.
+    rewrite (sumf_ext K i (fun k => mg (lu_a st') i k * u' k)
+                          (fun k => dp i * (mg (lu_a st) i k * u k))).
+    { rewrite <- sumf_scale_l. unfold dp. ring. }
+    intros k Hk. rewrite HC by lia. rewrite IHm by lia. unfold dp. field. apply Hdp; lia. }
+  assert (Hs_sc : forall i, j <= i < n -> s' i = dp i * s i).
+  { intros i Hi. rewrite (Hs' i Hi), (Hs i Hi). rewrite HA by lia.
+    rewrite (sumf_ext K j (fun k => mg (lu_a st') i k * u' k)
+                          (fun k => dp i * (mg (lu_a st) i k * u k))).
+    { rewrite <- sumf_scale_l. unfold dp. ring. }
+    intros k Hk. rewrite HC by lia. rewrite (Hu_sc (S k)) by lia. unfold dp. field. apply Hdp; lia. }
+  assert (Hmet : forall i, j <= i < n -> cand_metric n st' j i = cand_metric n st j i).
+  { intros i Hi. unfold cand_metric. rewrite <- Es', <- Es. rewrite Hs_sc by auto.
+    rewrite nrm2_mul, HD by auto. apply metric_scale'. apply nrm2_pos, Hdp. lia. }
+  assert (Ebi : col_bi n st' j = col_bi n st j).
+  { rewrite !col_bi_sel by auto. f_equal. apply sel_ext.
+    intros i Hi. apply in_seq in Hi. apply Hmet. lia. }
+  split; [exact Ebi|].
+  rewrite Ebi in *. set (bi := col_bi n st j) in *.
+  assert (Tlt : forall i, i < j -> tr j bi i = i) by (intros; apply tr_other; lia).
+  assert (Tn : forall i, i < n -> tr j bi i < n) by (intros; apply tr_lt; lia).
+  assert (Tge : forall i, j <= i -> j <= tr j bi i).
+  { intros i Hi. unfold tr. destruct (i =? j); [lia|]. destruct (i =? bi); lia. }
+  assert (Eri2 : lu_ri (lu_column n st' j) = lu_ri (lu_column n st j)).
+  { rewrite Eri1', Eri1, Eri. reflexivity. }
+  assert (Hsb : s bi <> 0) by (rewrite <- Hjj1; exact Hnz).
+  split; [exact Eri2|]. split.
+  { rewrite Hp1', Hp1, Epv, Eri2. reflexivity. }
+  split; [apply Sinv_step; auto|]. split; [apply Sinv_step; auto|]. split.
+  { rewrite lu_column_rs.
+    match goal with |- context [if ?b then _ else _] => destruct b end;
+    rewrite ?upd_length; auto. }
+  split.
+  { rewrite lu_column_rs.
+    match goal with |- context [if ?b then _ else _] => destruct b end;
+    rewrite ?upd_length; auto. }
+  cbv zeta. split; [|split; [|split]].
+  - intros i c Hi Hc. rewrite Hc1', Hc1 by lia. rewrite Hri1. apply HA; auto. lia.
+  - intros i c Hi Hc Hic. destruct (Nat.eq_dec c j) as [->|Hcj].
+    + destruct (Nat.eq_dec i j) as [->|Hij].
+      * rewrite Hjj1', Hjj1, Hri1, tr_l. apply Hs_sc. lia.
+      * rewrite Hu1', Hu1 by lia. rewrite Hri1, Tlt by lia. apply (Hu_sc (S i)); lia.
+    + rewrite Hc1', Hc1 by lia. rewrite Hri1. rewrite Tlt by lia. apply HB; lia.
+  - intros i c Hi Hc Hci. destruct (Nat.eq_dec c j) as [->|Hcj].
+    + rewrite Hlow1', Hlow1 by lia. rewrite !Hri1, tr_l.
+      pose proof (Tge i ltac:(lia)). pose proof (Tn i Hi).
+      rewrite !Hs_sc by lia. unfold dp.
+      field. split; [exact Hsb|]. apply Hdp; lia.
+    + rewrite Hc1', Hc1 by lia. rewrite !Hri1. rewrite (Tlt c) by lia.
+      apply HC; auto; try lia.
+      destruct (lt_dec i j); [rewrite Tlt; lia|]. pose proof (Tge i ltac:(lia)). lia.
+  - intros i Hi. rewrite !lu_column_rs. rewrite Ebi. fold bi. rewrite Hri1.
+    destruct (Nat.eqb_spec bi j) as [E|E]; simpl.
+    + rewrite E, tr_same. apply HD. lia.
+    + destruct (Nat.eq_dec i bi) as [->|Hne].
+      * rewrite !nth_upd_eq by lia. rewrite tr_r. apply HD. lia.
+      * rewrite !nth_upd_neq by auto. rewrite tr_other by lia. apply HD; lia.
+Qed.
+
+(* uses additionally invM_mul, ltM_mul_pos, mulM_zero_r (through row_max_scale) *)
+Lemma ScaleRel_init a : wf n n a -> ScaleRel 0 (lu_init a n) (lu_init (scale_rows d a n) n).
+Proof.
+  intros Hw.
+  pose proof (Sinv_upto K M nrm2 mulM ltM zeroM invM a n Hw 0 (Nat.le_0_l n)) as HS.
+  pose proof (Sinv_upto K M nrm2 mulM ltM zeroM invM (scale_rows d a n) n
+                (wf_mbuild K n n _) 0 (Nat.le_0_l n)) as HS'.
+  change (lu_upto a n 0) with (lu_init a n) in HS.
+  change (lu_upto (scale_rows d a n) n 0) with (lu_init (scale_rows d a n) n) in HS'.
+  split; [reflexivity|]. split; [reflexivity|]. split; [exact HS|]. split; [exact HS'|].
+  unfold LuModel.lu_init. cbn [LuModel.lu_a LuModel.lu_ri LuModel.lu_rs].
+  split; [rewrite map_length, seq_length; auto|].
+  split; [rewrite map_length, seq_length; auto|].
+  cbv zeta. split; [|split; [|split]]; try (intros; lia).
+  - intros i c Hi Hc. unfold scale_rows. rewrite mget_mbuild by lia.
+    rewrite seq_nth by auto. reflexivity.
+  - intros i Hi. rewrite !nth_map_seq by lia. rewrite seq_nth by lia. cbn [Nat.add].
+    rewrite row_max_scale by (auto; try lia; apply Hd; lia). apply invM_mul.
+Qed.
+
+Lemma pivot_scale_invariant_upto a : wf n n a ->
+  (forall j, j < n -> mg (lu_a (lu a n)) j j <> 0) ->
+  forall t, t <= n -> ScaleRel t (lu_upto a n t) (lu_upto (scale_rows d a n) n t).
+Proof.
+  intros Hw Hnz. induction t; intros Ht.
+  - apply ScaleRel_init; auto.
+  - rewrite !lu_upto_S. apply pivot_scale_invariant_step; [apply IHt; lia|lia|].
+    rewrite <- lu_upto_S.
+    destruct (lu_upto_stable K M nrm2 mulM ltM zeroM invM a n Hw t n) as (_ & H); try lia.
+    rewrite <- H by lia. apply Hnz. lia.
+Qed.
+End Run.
+
+(* (2d) *)
+Theorem pivot_scale_invariant a n d : wf n n a -> (forall i, i < n -> d i <> 0) ->
+  (forall j, j < n -> mg (lu_a (lu a n)) j j <> 0) ->
+  lu_pivots (lu (scale_rows d a n) n) = lu_pivots (lu a n).
+Proof.
+  intros Hw Hd Hnz.
+  destruct (pivot_scale_invariant_upto d n Hd a Hw Hnz n (le_n n)) as (_ & H & _).
+  exact H.
+Qed.
+
+(* the permutation vectors agree as well *)
+Theorem ri_scale_invariant a n d : wf n n a -> (forall i, i < n -> d i <> 0) ->
+  (forall j, j < n -> mg (lu_a (lu a n)) j j <> 0) ->
+  lu_ri (lu (scale_rows d a n) n) = lu_ri (lu a n).
+Proof.
+  intros Hw Hd Hnz.
+  destruct (pivot_scale_invariant_upto d n Hd a Hw Hnz n (le_n n)) as (H & _).
+  exact H.
+Qed.
+End Scale.
 End Order.
 
 End LuPivot.
+
+(* ================= Part 3: the hypotheses hold for Qc / Gaussian rationals ================ *)
+Require Import QArith Qcanon.
+Require Import LV.Base.QcI LV.Lin.LuQI.
+
+Section QcInst.
+Local Open Scope Qc_scope.
+
+Lemma Qc_ltb_true x y : Qc_ltb x y = true <-> x < y.
+Proof.
+  unfold Qc_ltb. destruct (Qclt_le_dec x y) as [H|H]; split; auto; try discriminate.
+  intros H'. exfalso. exact (Qcle_not_lt _ _ H H').
+Qed.
+
+Lemma Qc_ltb_false x y : Qc_ltb x y = false <-> y <= x.
+Proof.
+  unfold Qc_ltb. destruct (Qclt_le_dec x y) as [H|H]; split; auto; try discriminate.
+  intros H'. exfalso. exact (Qcle_not_lt _ _ H' H).
+Qed.
+
+Lemma qc_ltM_irrefl : forall x, Qc_ltb x x = false.
+Proof. intros x. apply Qc_ltb_false. apply Qcle_refl. Qed.
+
+Lemma qc_ltM_trans : forall x y z, Qc_ltb x y = true -> Qc_ltb y z = true -> Qc_ltb x z = true.
+Proof. intros x y z H1 H2. apply Qc_ltb_true in H1, H2. apply Qc_ltb_true. eapply Qclt_trans; eauto. Qed.
+
+Lemma qc_mulM_pos : forall x y, Qc_ltb 0 x = true -> Qc_ltb 0 y = true -> Qc_ltb 0 (x * y) = true.
+Proof.
+  intros x y H1 H2. apply Qc_ltb_true in H1, H2. apply Qc_ltb_true.
+  replace 0 with (0 * y) by ring. apply Qcmult_lt_compat_r; auto.
+Qed.
+
+Lemma qc_mulM_zero_r : forall x, x * 0 = 0.
+Proof. intros; ring. Qed.
+
+Lemma qc_mulM_comm : forall x y : Qc, x * y = y * x.
+Proof. intros; ring. Qed.
+
+Lemma qc_mulM_assoc : forall x y z : Qc, x * (y * z) = (x * y) * z.
+Proof. intros; ring. Qed.
+
+Lemma qc_mulM_one_l : forall x : Qc, 1 * x = x.
+Proof. intros; ring. Qed.
+
+Lemma qc_invM_l : forall x, Qc_ltb 0 x = true -> / x * x = 1.
+Proof.
+  intros x H. apply Qc_ltb_true in H. apply Qcmult_inv_l.
+  intro E. rewrite E in H. exact (Qclt_not_eq _ _ H eq_refl).
+Qed.
+
+Lemma qc_invM_mul : forall x y, / (x * y) = / x * / y.
+Proof. exact Qcinv_mult_distr. Qed.
+
+Lemma qc_ltM_mul_pos : forall d x y, Qc_ltb 0 d = true -> Qc_ltb (d * x) (d * y) = Qc_ltb x y.
+Proof.
+  intros d x y Hd. apply Qc_ltb_true in Hd.
+  destruct (Qc_ltb x y) eqn:E.
+  - apply Qc_ltb_true in E. apply Qc_ltb_true.
+    rewrite (Qcmult_comm d x), (Qcmult_comm d y). apply Qcmult_lt_compat_r; auto.
+  - apply Qc_ltb_false in E. apply Qc_ltb_false.
+    rewrite (Qcmult_comm d x), (Qcmult_comm d y). apply Qcmult_le_compat_r; auto.
+    apply Qclt_le_weak; auto.
+Qed.
+
+Lemma Q_sq_nonneg (a : Q) : (0 <= a * a)%Q.
+Proof.
+  destruct a as [p q]. unfold Qle, Qmult. simpl. rewrite Z.mul_1_r. apply Z.square_nonneg.
+Qed.
+
+Lemma Qc_sq_nonneg (a : Qc) : 0 <= a * a.
+Proof.
+  unfold Qcle. cbn [this Qcmult Q2Qc]. rewrite !Qred_correct. apply Q_sq_nonneg.
+Qed.
+
+Lemma qi_nrm_nonneg (x : qi) : 0 <= qi_nrm x.
+Proof.
+  unfold qi_nrm. replace 0 with (0 + 0) by ring.
+  apply Qcplus_le_compat; apply Qc_sq_nonneg.
+Qed.
+
+Lemma qi_nrm2_zero : qi_nrm (@c0 QIF) = 0.
+Proof. unfold qi_nrm. simpl. ring. Qed.
+
+Lemma qi_nrm2_pos : forall x : QIF, x <> @c0 QIF -> Qc_ltb 0 (qi_nrm x) = true.
+Proof.
+  intros x Hx. apply Qc_ltb_true.
+  destruct (Qcle_lt_or_eq _ _ (qi_nrm_nonneg x)) as [H|H]; auto.
+  exfalso. apply Hx. apply qi_nrm_zero. symmetry. exact H.
+Qed.
+
+Lemma qi_nrm2_mul : forall x y : QIF, qi_nrm (@cmul QIF x y) = qi_nrm x * qi_nrm y.
+Proof. intros [a b] [c d]. unfold qi_nrm. simpl. ring. Qed.
+End QcInst.
+Local Open Scope nat_scope.
+
+(* the two theorems at the Gaussian rationals, reciprocal row scale *)
+Definition qp_lu := lu QIF Qc qi_nrm Qcmult Qc_ltb 0%Qc Qcinv.
+
+Theorem q_pivot_scale_invariant (a : mat QIF) n (d : nat -> QIF) : wf n n a ->
+  (forall i, i < n -> d i <> @c0 QIF) ->
+  (forall j, j < n -> mget QIF (lu_a QIF Qc (qp_lu a n)) j j <> @c0 QIF) ->
+  lu_pivots QIF Qc (qp_lu (scale_rows QIF d a n) n) = lu_pivots QIF Qc (qp_lu a n).
+Proof.
+  apply (pivot_scale_invariant QIF Qc qi_nrm Qcmult Qc_ltb 0%Qc qc_mulM_zero_r qi_nrm2_pos
+           1%Qc Qcinv qc_mulM_comm qc_mulM_assoc qc_mulM_one_l qc_invM_l qc_invM_mul
+           qc_ltM_mul_pos qi_nrm2_mul).
+Qed.
+
+Definition q_pivot_nonzero_if_any :=
+  pivot_nonzero_if_any QIF Qc qi_nrm Qcmult Qc_ltb 0%Qc qc_ltM_irrefl qc_ltM_trans
+    qc_mulM_zero_r qi_nrm2_zero.
+
+Definition q_pivot_nonzero_if_any_s :=
+  pivot_nonzero_if_any_s QIF Qc qi_nrm Qcmult Qc_ltb 0%Qc qc_ltM_irrefl qc_ltM_trans
+    qc_mulM_pos qc_mulM_zero_r qi_nrm2_zero qi_nrm2_pos.
+
+(* ---------- non-vacuity: a concrete 3x3 matrix ---------- *)
+Definition ex_a : mat QIF :=
+  [[mkqi 1 1 0 1; mkqi 2 1 0 1; mkqi 3 1 1 1];
+   [mkqi 4 1 0 1; mkqi 5 1 (-1) 2; mkqi 6 1 0 1];
+   [mkqi 7 1 2 1; mkqi 8 1 0 1; mkqi 10 1 0 1]].
+Definition ex_d (i : nat) : QIF :=
+  match i with O => mkqi 1000 1 0 1 | 1 => mkqi 0 1 1 7 | _ => mkqi (-3) 2 1 5 end.
+
+Lemma ex_wf : wf 3 3 ex_a.
+Proof. split; [reflexivity|repeat constructor]. Qed.
+
+Lemma ex_d_nz : forall i, i < 3 -> ex_d i <> @c0 QIF.
+Proof.
+  intros i Hi. apply qi_neqb.
+  destruct i as [|[|[|i]]]; try lia; vm_compute; reflexivity.
+Qed.
+
+Lemma ex_pivots_nz : forall j, j < 3 -> mget QIF (lu_a QIF Qc (qp_lu ex_a 3)) j j <> @c0 QIF.
+Proof.
+  intros j Hj. apply qi_neqb.
+  destruct j as [|[|[|j]]]; try lia; vm_compute; reflexivity.
+Qed.
+
+Example ex_scale_invariant :
+  lu_pivots QIF Qc (qp_lu (scale_rows QIF ex_d ex_a 3) 3) = lu_pivots QIF Qc (qp_lu ex_a 3).
+Proof. exact (q_pivot_scale_invariant ex_a 3 ex_d ex_wf ex_d_nz ex_pivots_nz). Qed.
+
+(* the pivot sequence of the example is not the identity: rows were exchanged *)
+Example ex_pivots : lu_pivots QIF Qc (qp_lu ex_a 3) = [2; 0; 1].
+Proof. vm_compute. reflexivity. Qed.
+
+(* first column of the same matrix: row 2 has a positive metric, so the chosen pivot is a
+   maximiser of the metric and the diagonal entry written by the column step is nonzero *)
+Example ex_first_column_pivot :
+  let st := lu_init QIF Qc qi_nrm Qc_ltb 0%Qc Qcinv ex_a 3 in
+  let bi := col_bi QIF Qc qi_nrm Qcmult Qc_ltb 0%Qc 3 st 0 in
+  0 <= bi < 3 /\
+  Qc_ltb 0%Qc (cand_metric QIF Qc qi_nrm Qcmult 0%Qc 3 st 0 bi) = true /\
+  (forall i, 0 <= i < 3 ->
+     Qc_ltb (cand_metric QIF Qc qi_nrm Qcmult 0%Qc 3 st 0 bi)
+            (cand_metric QIF Qc qi_nrm Qcmult 0%Qc 3 st 0 i) = false) /\
+  mget QIF (lu_a QIF Qc (lu_column QIF Qc qi_nrm Qcmult Qc_ltb 0%Qc 3 st 0)) 0 0 <> @c0 QIF.
+Proof.
+  apply q_pivot_nonzero_if_any; [exact ex_wf|lia|].
+  exists 2. split; [lia|]. vm_compute. reflexivity.
+Qed.
+
+Print Assumptions col_bi_sel.
+Print Assumptions lu_column_rs.
+Print Assumptions lu_column_pivot_value.
+Print Assumptions lu_column_spec_bi.
+Print Assumptions sel_max.
+Print Assumptions pivot_nonzero_if_any.
+Print Assumptions pivot_nonzero_if_any_s.
+Print Assumptions row_max_scale.
+Print Assumptions metric_scale.
+Print Assumptions pivot_scale_invariant_step.
+Print Assumptions pivot_scale_invariant.
+Print Assumptions ri_scale_invariant.
+Print Assumptions q_pivot_scale_invariant.
+Print Assumptions ex_scale_invariant.
+Print Assumptions ex_first_column_pivot.
